@@ -28,47 +28,42 @@ type Variant struct {
 func (v Variant) key() string { return v.Name + ":" + v.Word }
 
 type World struct {
-	V                             Variant
-	Own, Other, OwnNew, OtherNew  string
-	VX, KX, XS                    string // name-class vector id, kv key, free string (task id, jti, artifact)
-	Toks                          *TokenSet
-	baseKV                        map[string][]byte
-	baseline                      string
-	baseDoc                       map[string]any
-	n                             *Node
+	V                            Variant
+	Own, Other, OwnNew, OtherNew string
+	VX, KX, XS                   string // name-class vector id, kv key, free string (task id, jti, artifact)
+	Toks                         *TokenSet
+	baseKV                       map[string][]byte
+	baseline                     string
+	baseDoc                      map[string]any
+	n                            *Node
+	OtherMissing                 bool
 }
 
+// generation: VDeleteIndex removes the arena directory of a dropped index once more in a goroutine,
+// so an index re-created under the same name can lose its files. Names are never reused.
+var generation int
+
 func namesFor(v Variant) (own, other, ownNew, otherNew, vx, kx, xs string) {
+	generation++
+	a, b := fmt.Sprintf("alpha%d", generation), fmt.Sprintf("beta%d", generation)
 	switch v.Name {
 	case "readword":
 		s := "-" + v.Word
-		return "alpha" + s, "beta" + s, "alphanew" + s, "betanew" + s, "vx" + s, "kx" + s, "x" + s
+		return a + s, b + s, a + "new" + s, b + "new" + s, "vx" + s, "kx" + s, "x" + s
 	case "slash":
 		// the OTHER index shares its first path piece with the token's own namespace
-		return "alpha", "alpha/x", "alphanew", "alpha/new", "vx/y", "kx/y", "x/y"
+		return a, a + "/x", a + "new", a + "/new", "vx/y", "kx/y", "x/y"
 	case "encoded":
 		s := " b%c"
-		return "alpha" + s, "beta" + s, "alphanew" + s, "betanew" + s, "vx y%z", "kx y%z", "x y%z"
+		return a + s, b + s, a + "new" + s, b + "new" + s, "vx y%z", "kx y%z", "x y%z"
 	default: // benign, reserved
-		return "alpha", "beta", "alphanew", "betanew", "vx", "kx", "x1"
+		return a, b, a + "new", b + "new", "vx", "kx", "x1"
 	}
 }
 
 func newWorld(n *Node, v Variant) (*World, error) {
 	w := &World{V: v, n: n}
-	w.Own, w.Other, w.OwnNew, w.OtherNew, w.VX, w.KX, w.XS = namesFor(v)
-	if err := w.wipe(); err != nil {
-		return nil, err
-	}
-	if err := w.seed(); err != nil {
-		return nil, err
-	}
-	ts, err := n.buildTokens([]string{w.Own, w.OwnNew})
-	if err != nil {
-		return nil, err
-	}
-	w.Toks = ts
-	// baseline = seeded data + signing key + the revocation markers of this world's revoked tokens
+	// the signing key and whatever markers earlier worlds left are part of every baseline
 	w.baseKV = map[string][]byte{}
 	kv := n.Eng.DB.GetKVStore()
 	for _, k := range kv.Keys() {
@@ -78,7 +73,9 @@ func newWorld(n *Node, v Variant) (*World, error) {
 			}
 		}
 	}
-	w.baseline, w.baseDoc = w.digest()
+	if err := w.rebuild(); err != nil {
+		return nil, err
+	}
 	time.Sleep(2 * time.Millisecond)
 	if again, _ := w.digest(); again != w.baseline {
 		return nil, fmt.Errorf("state digest is not stable on an idle engine")
@@ -88,7 +85,9 @@ func newWorld(n *Node, v Variant) (*World, error) {
 
 func (w *World) wipe() error {
 	e := w.n.Eng
-	for _, name := range e.ListIndexes() {
+	names := e.ListIndexes()
+	sort.Slice(names, func(i, j int) bool { return len(names[i]) > len(names[j]) })
+	for _, name := range names {
 		if err := e.VDeleteIndex(name); err != nil {
 			return fmt.Errorf("wipe: VDeleteIndex(%q): %w", name, err)
 		}
@@ -96,7 +95,7 @@ func (w *World) wipe() error {
 	kv := e.DB.GetKVStore()
 	for _, k := range kv.Keys() {
 		if strings.HasPrefix(k, "_sys_auth::") {
-			if _, keep := w.baseKV[k]; keep || w.baseKV == nil {
+			if _, keep := w.baseKV[k]; keep {
 				continue
 			}
 			kv.Delete(k)
@@ -122,6 +121,12 @@ func (w *World) seed() error {
 	e := w.n.Eng
 	for _, ix := range []struct{ name, secret string }{{w.Own, secretOwn}, {w.Other, secretOther}} {
 		if err := e.VCreate(ix.name, distance.Euclidean, 0, 0, distance.Float32, "", nil, nil, nil); err != nil {
+			if ix.name == w.Other && w.V.Name == "slash" && strings.Contains(err.Error(), "invalid index name") {
+				// the tree refuses index names with a path separator: the requests of this name class
+				// (…/indexes/<own>%2Fx/…) are still sent, there is just no such index behind them
+				w.OtherMissing = true
+				continue
+			}
 			return fmt.Errorf("seed: VCreate(%q): %w", ix.name, err)
 		}
 		vecs := []struct {
@@ -153,18 +158,30 @@ func (w *World) seed() error {
 	return nil
 }
 
+// rebuild drops everything and seeds a fresh pair of indexes (new names) with fresh tokens.
 func (w *World) rebuild() error {
 	if err := w.wipe(); err != nil {
 		return err
 	}
+	w.Own, w.Other, w.OwnNew, w.OtherNew, w.VX, w.KX, w.XS = namesFor(w.V)
+	w.OtherMissing = false
 	if err := w.seed(); err != nil {
 		return err
 	}
-	d, _ := w.digest()
-	if d != w.baseline {
-		// creation timestamps etc. may legitimately differ: adopt the new baseline
-		w.baseline, w.baseDoc = w.digest()
+	ts, err := w.n.buildTokens([]string{w.Own, w.OwnNew})
+	if err != nil {
+		return err
 	}
+	w.Toks = ts
+	// the revocation markers of this generation's revoked tokens belong to the baseline
+	kv := w.n.Eng.DB.GetKVStore()
+	for _, jti := range ts.jti {
+		k := "_sys_auth::revoked::" + jti
+		if val, ok := kv.Get(k); ok {
+			w.baseKV[k] = append([]byte(nil), val...)
+		}
+	}
+	w.baseline, w.baseDoc = w.digest()
 	return nil
 }
 
